@@ -10,6 +10,13 @@ typedef int bl_lit; typedef int bl_prog;
 typedef struct { _Bool first; int second; } pair_bool_int;
 typedef struct { bl_lit first; int second; } OutcomeCount;
 typedef struct { OutcomeCount *data; size_t size; } vec_OC;
+#ifndef VMAXC
+#define VMAXC 3
+#endif
+#ifndef OMAXC
+#define OMAXC 3
+#endif
+typedef size_t VarRow; typedef int bl_inner; typedef int bl_outer;
 /* double arithmetic: uninterpreted in UF mode */
 #if defined(UF) && !defined(NATIVE)
 double __CPROVER_uninterpreted_d_div(double, double);
